@@ -60,7 +60,11 @@ impl<'a> Lexer<'a> {
                     None
                 } else {
                     let start = self.original_length - self.input.len();
-                    let end = start + 1;
+                    // The span of the error token must cover the whole
+                    // character, which might be more than one byte.
+                    let len =
+                        self.input.chars().next().map_or(1, char::len_utf8);
+                    let end = start + len;
                     Some((Err(()), start..end))
                 }
             }
